@@ -27,7 +27,10 @@ class OffLattice(Exception):
     pass
 
 
-def lat(x):
+FINE = 2.0 ** -24     # second lattice: boundaries a few 2^-24 s apart (near-coincident, still exact doubles)
+
+
+def lat(x, U=U):
     k = np.asarray(x, dtype=float) / U
     r = np.round(k)
     if k.size and (not np.all(np.isfinite(k)) or np.max(np.abs(k - r)) > 1e-9):
@@ -35,29 +38,44 @@ def lat(x):
     return r.astype(int).tolist()
 
 
-def arr(ivs):
-    return np.array(ivs, dtype=float).reshape(-1, 2) * U
-
-
-def tval(t):
-    return None if t == -1 else t * U
-
-
-def execute(me, kind, inp):
-    """run the real function on a (lattice) input; return res dict for Trace_C13"""
+def execute(me, kind, inp, unit=U, int_dtype=False):
+    """run the real function on a (lattice) input; return res dict for Trace_C13.
+    The caller-owned arrays are created once and the function is called on them several times (an
+    identical call and, for adjust, a call with another crop point first): an implementation that
+    writes into its input shows up as a wrong result of the final call."""
     u = me.util
+    U = unit
+
+    def arr(ivs):
+        a = np.array(ivs, dtype=float).reshape(-1, 2) * U
+        return a.astype(int) if int_dtype else a
+
+    def tval(t):
+        return None if t == -1 else t * U
+
+    def lat(x):
+        return globals()["lat"](x, U)
     try:
         if kind == "adjust":
-            oi, ol = u.adjust_intervals(arr(inp["ivs"]), list(inp["labs"]), t_min=tval(inp["tmin"]),
-                                        t_max=tval(inp["tmax"]), start_label=inp.get("sl", "S"),
-                                        end_label=inp.get("el", "E"))
+            a, labs = arr(inp["ivs"]), list(inp["labs"])
+            kw = dict(start_label=inp.get("sl", "S"), end_label=inp.get("el", "E"))
+            mid = (inp["ivs"][0][0] + inp["ivs"][0][1]) / 2.0 * U
+            for tm in (mid, tval(inp["tmin"])):
+                try:
+                    u.adjust_intervals(a, labs, t_min=tm, t_max=tval(inp["tmax"]), **kw)
+                except Exception:
+                    pass
+            oi, ol = u.adjust_intervals(a, labs, t_min=tval(inp["tmin"]), t_max=tval(inp["tmax"]), **kw)
             return {"exc": "", "ivs": lat(oi), "labs": [str(x) for x in ol]}
         if kind == "merge":
-            oi, xl, yl = u.merge_labeled_intervals(arr(inp["xi"]), list(inp["xl"]), arr(inp["yi"]), list(inp["yl"]))
+            xa, ya, xl0, yl0 = arr(inp["xi"]), arr(inp["yi"]), list(inp["xl"]), list(inp["yl"])
+            u.merge_labeled_intervals(xa, xl0, ya, yl0)
+            oi, xl, yl = u.merge_labeled_intervals(xa, xl0, ya, yl0)
             return {"exc": "", "ivs": lat(oi), "xl": [str(x) for x in xl], "yl": [str(x) for x in yl]}
         if kind == "interp":
-            labs = u.interpolate_intervals(arr(inp["ivs"]), list(inp["labs"]), np.array(inp["pts"], dtype=float) * U,
-                                           fill_value="F")
+            a, l0, p = arr(inp["ivs"]), list(inp["labs"]), np.array(inp["pts"], dtype=float) * U
+            u.interpolate_intervals(a, l0, p, fill_value="F")
+            labs = u.interpolate_intervals(a, l0, p, fill_value="F")
             return {"exc": "", "labs": [str(x) for x in labs]}
         if kind == "samples":
             t, labs = u.intervals_to_samples(arr(inp["ivs"]), list(inp["labs"]), offset=inp["offset"] * U,
@@ -84,6 +102,35 @@ def pad(res, kind):
     base.update(res)
     base.pop("msg", None)
     return base
+
+
+def fine_inputs(rng, n):
+    """annotations whose boundaries nearly coincide (a few 2^-24 s apart): unit FINE"""
+    out = []
+    Q = 2 ** 22        # 0.25 s in FINE units
+    for _ in range(n):
+        k = rng.randint(2, 5)
+        base = sorted(rng.sample(range(0, 12), k + 1))
+        xb = [b * Q + rng.choice([0, 0, 1, 2]) for b in base]
+        xb[0] = base[0] * Q
+        xb[-1] = base[-1] * Q
+        # second annotation: same span, boundaries at the same places +- a few units
+        yb = sorted(set([xb[0]] + [b + rng.choice([-2, -1, 1, 2, 3]) for b in xb[1:-1] if rng.random() < 0.8] + [xb[-1]]))
+        xi = [[xb[i], xb[i + 1]] for i in range(len(xb) - 1)]
+        yi = [[yb[i], yb[i + 1]] for i in range(len(yb) - 1)]
+        xl = [rng.choice("abc") for _ in xi]
+        yl = [rng.choice("xyz") for _ in yi]
+        out.append(("merge", {"xi": xi, "xl": xl, "yi": yi, "yl": yl}))
+        allb = sorted(set(xb + yb))
+        tmin = rng.choice([-1] + [b + d for b in allb[:2] for d in (-1, 0, 1) if b + d >= 0])
+        tmax = rng.choice([-1] + [b + d for b in allb[-2:] for d in (-1, 0, 1)])
+        lo = xb[0] if tmin == -1 else tmin
+        hi = xb[-1] if tmax == -1 else tmax
+        if lo < hi and any(min(e, hi) > max(s, lo) for s, e in xi):
+            out.append(("adjust", {"ivs": xi, "labs": xl, "tmin": tmin, "tmax": tmax}))
+        pts = sorted(rng.choice(allb) + rng.choice([-1, 0, 0, 1]) for _ in range(4))
+        out.append(("interp", {"ivs": xi, "labs": xl, "pts": [p for p in pts if p >= 0]}))
+    return out
 
 
 def random_inputs(rng, n):
@@ -194,7 +241,7 @@ def run(tier, seed):
     ev = Evidence(PROP, tier, seed)
     rep = Reporter(PROP)
     thorough = tier == "thorough"
-    events, meta = [], {}
+    events, meta, units = [], {}, {}
     for kind in ("adjust", "merge", "interp", "samples", "bounds", "events"):
         cfg = "MC_C13_%s%s" % (kind, "_T" if thorough else "")
         res = tlc.run("MC_C13", cfg=cfg, timeout=3400, heap="8g")
@@ -212,6 +259,16 @@ def run(tier, seed):
         tid = len(events) + 1
         events.append(to_event(tid, kind, inp, execute(me, kind, inp)))
         meta[tid] = "random"
+        # integer-dtype interval array with a crop point that is not an integer number of seconds
+        if kind == "adjust" and all(x % 4 == 0 for iv in inp["ivs"] for x in iv) and rng.random() < 0.5:
+            tid = len(events) + 1
+            events.append(to_event(tid, kind, inp, execute(me, kind, inp, int_dtype=True)))
+            meta[tid] = "random-int-dtype"
+    for kind, inp in fine_inputs(rng, 2000 if thorough else 300):
+        tid = len(events) + 1
+        events.append(to_event(tid, kind, inp, execute(me, kind, inp, unit=FINE)))
+        meta[tid] = "fine-lattice"
+        units[tid] = FINE
     for kind, inp, res in recorded_inner_calls(me, rng, 1500 if thorough else 150):
         tid = len(events) + 1
         events.append(to_event(tid, kind, inp, res))
@@ -225,7 +282,7 @@ def run(tier, seed):
         e = byid[rj["tid"]]
         rep.violation(FN[e["kind"]], rj["class"] + "/" + rj["clause"],
                       {"kind": e["kind"], "inp": e["inp"], "impl_result": e["res"], "source": meta[rj["tid"]],
-                       "unit_seconds": U})
+                       "unit_seconds": units.get(rj["tid"], U), "int_dtype": meta[rj["tid"]] == "random-int-dtype"})
     for e in events:
         i = e["inp"]
         ev.case((e["kind"], i), nontrivial=(len(i["ivs"]) + len(i["xi"]) + len(i["evs"]) >= 2))
@@ -248,7 +305,7 @@ def replay(path):
     me = import_mir_eval()
     v = json.load(open(path))
     d = v["detail"]
-    res = execute(me, d["kind"], d["inp"])
+    res = execute(me, d["kind"], d["inp"], unit=d.get("unit_seconds", U), int_dtype=d.get("int_dtype", False))
     evs = [to_event(1, d["kind"], d["inp"], res)]
     rejects, _ = trace.validate_par("Trace_C13", evs, workers=1)
     print("input:", json.dumps(d["inp"]), "\nresult now:", json.dumps(res))
